@@ -4,10 +4,12 @@ go 1.23.0
 
 toolchain go1.23.5
 
-require go.flow.arcalot.io/pluginsdk v0.0.0
+require (
+	github.com/fxamacker/cbor/v2 v2.7.0
+	go.flow.arcalot.io/pluginsdk v0.0.0
+)
 
 require (
-	github.com/fxamacker/cbor/v2 v2.7.0 // indirect
 	github.com/x448/float16 v0.8.4 // indirect
 	go.arcalot.io/log/v2 v2.2.0 // indirect
 	golang.org/x/sys v0.30.0 // indirect
